@@ -245,6 +245,28 @@ def shrink_case(engine, lines, keep_prefix=1, budget=400, accept=None, timeout=4
     return head + body
 
 
+def histogram(cov, engine, lines, outs):
+    """input distribution: operations (for start/step engines the call kind) and the kinds of answers seen"""
+    h = cov['op_histogram']
+    oh = cov.setdefault('answer_histogram', {})
+    for l, o in zip(lines, outs):
+        t = l.split()
+        k = engine + ':' + t[0]
+        if t[0] == 'start' and len(t) > 2:
+            k += ':' + t[2]
+        h[k] = h.get(k, 0) + 1
+        ot = o.split()
+        a = ot[0] if ot else ''
+        if a in ('at', 'ret') and len(ot) > 1:
+            a += ' ' + (ot[1] if a == 'at' or ot[1] in ('true', 'false', 'end', 'none', 'ok', 'nil') else '<value>')
+        elif '=' in a:
+            a = a.split('=')[0] + '=…'
+        elif a.lstrip('-').isdigit() or ':' in a or ',' in a:
+            a = '<value>'
+        ak = engine + ':' + a
+        oh[ak] = oh.get(ak, 0) + 1
+
+
 def split_cases(lines):
     """[(case id, [output lines])] from an output stream."""
     cases = []
@@ -281,9 +303,7 @@ def differential(engine, cases, result, prop, tier, known=None, keep_prefix=1, n
             if nontrivial is None or nontrivial(c, io):
                 distinct.add(h)
             cov['traces_validated_against_impl'] += 1
-            for l in c:
-                k = engine + ':' + l.split()[0]
-                cov['op_histogram'][k] = cov['op_histogram'].get(k, 0) + 1
+            histogram(cov, engine, c, io)
             if len(cov['samples']) < 3 and (nontrivial is None or nontrivial(c, io)):
                 cov['samples'].append({'engine': engine, 'script': c[:40], 'outputs': io[:40]})
             continue
@@ -400,9 +420,7 @@ def differential_interactive(engine, gen, n, rng, tier, result, nontrivial=None,
                 if len(cov['samples']) < 3:
                     cov['samples'].append({'engine': engine, 'script': c[:60], 'outputs': io[:60]})
             cov['traces_validated_against_impl'] += 1
-            for l in c:
-                k = engine + ':' + ' '.join(l.split()[:1])
-                cov['op_histogram'][k] = cov['op_histogram'].get(k, 0) + 1
+            histogram(cov, engine, c, io)
             continue
         d = compare_case(engine, c)
         if d is None:
